@@ -15,7 +15,9 @@ CONTRACT_PROPS = ["C09"]
 RULE = "scenario x engine x repetition; non-trivial = at least one service was started"
 BOUND = "service latency 30 ms; 10 scenarios x 2 engines x 2 (quick) / 6 (thorough) repetitions"
 L = 0.03
-SCEN = ["ok", "fail-handled", "fail-unhandled", "two", "reenter", "exit-early", "reenter-early", "stop-early", "stale"]
+SCEN = ["ok", "fail-handled", "fail-unhandled", "two", "reenter", "exit-early", "reenter-early", "stop-early", "stale",
+        # the invoking state is compound and is entered through one of its descendants / its history pseudo-state
+        "compound-child", "compound-history"]
 
 
 def cases(tier, seed):
@@ -78,12 +80,15 @@ def _machine(scen, eng, log):
     cfg = {"id": "m", "initial": "idle", "context": {}, "states": {
         "idle": {"on": {"GO": "#m.a"}},
         "a": {"invoke": invs, "on": {"X": "#m.b"}}, "b": {"on": {"Y": "#m.a"}}, "failed": {}}}
+    if scen in ("compound-child", "compound-history"):
+        cfg["states"]["idle"]["on"] = {"GO": "#m.a.a2" if scen == "compound-child" else "#m.a.h"}
+        cfg["states"]["a"].update({"initial": "a1", "states": {"a1": {}, "a2": {}, "h": {"type": "history", "history": "shallow"}}})
     logic = MachineLogic(actions={"got": got, "goterr": goterr},
                          services={"s1": mk("s1"), "s2": mk("s2"), "f1": mk("f1", fail=True)})
     return create_machine(cfg, logic=logic)
 
 
-SCRIPT = {"ok": ["GO"], "fail-handled": ["GO"], "fail-unhandled": ["GO"], "two": ["GO"],
+SCRIPT = {"compound-child": ["GO"], "compound-history": ["GO"], "ok": ["GO"], "fail-handled": ["GO"], "fail-unhandled": ["GO"], "two": ["GO"],
           "reenter": ["GO", "WAIT", "X", "Y"], "exit-early": ["GO", "X"], "reenter-early": ["GO", "X", "Y"],
           "stop-early": ["GO", "STOP"], "stale": ["GO", "WAIT", "X", "Y", "WAIT", "STALE"]}
 
@@ -126,7 +131,7 @@ def run_case(case):
                 await asyncio.sleep(L / 3)
         await asyncio.sleep(4 * L)
         deadline = time.monotonic() + 2.0
-        want = {"ok": 1, "two": 2, "reenter": 2, "reenter-early": 1}.get(scen, 0)
+        want = {"ok": 1, "two": 2, "reenter": 2, "reenter-early": 1, "compound-child": 1, "compound-history": 1}.get(scen, 0)
         while len(log.get("done", [])) < want and time.monotonic() < deadline:
             await asyncio.sleep(0.01)
         tasks = [t for ts in it.task_manager._tasks_by_owner.values() for t in ts if not t.done()]
@@ -146,7 +151,7 @@ def post_check(case, res):
 
     def bad(key, detail):
         out.append({"key": f"invoke/{e}:{key}", "detail": f"{scen}: {detail}"})
-    if scen == "ok":
+    if scen in ("ok", "compound-child", "compound-history"):
         if starts != [("s1", {"k": 7})]:
             bad("started-once-with-input", str(starts))
         if done != ["s1#1"]:
